@@ -29,6 +29,10 @@ Inductive pvflag := PvOk | PvAbsent | PvBad.
 Inductive outcome := OOk | OBig | OErr | OPanic | ONil.
 Inductive tact := TEmit | TBig | TFinish | TErr | TPanic | TNoEmit | TEmit2 | TBadSchema.
 Inductive citem := ITick | ICancel | IBadToken | ISticky.
+(* where user code cancels the context its dispatch runs under (the serve / request
+   context, or the one OnDispatchStart returned): nowhere, in the unary / init
+   handler, or inside the Produce / Exchange call at stream position k *)
+Inductive cancelpt := CNone | CHandler | CTurn (k : nat).
 
 Record call := {
   c_http : bool; c_kind : mkind;
@@ -39,7 +43,8 @@ Record call := {
   c_init : outcome;            (* unary handler / stream init handler *)
   c_nogob : bool;              (* stream state that cannot be packed into a token *)
   c_turns : list tact;         (* Produce / Exchange script *)
-  c_inputs : list citem }.     (* pipe: input batches; HTTP: continuation requests *)
+  c_inputs : list citem;       (* pipe: input batches; HTTP: continuation requests *)
+  c_cancel : cancelpt }.
 
 (* ---- responses ------------------------------------------------------------ *)
 Inductive fr := FData (v : Z) | FLog | FExc | FTok | FBad.
@@ -82,15 +87,24 @@ Definition val (pos : nat) : Z := Z.of_nat (S pos).
 Definition big_log (b : bool) : list fr := if b then [FLog] else [].
 Definition init_big (o : outcome) : bool := match o with OBig => true | _ => false end.
 
-(* pipe lockstep loop (server_stream.go): frames written, streamErr <> nil *)
-Fixpoint pipe_loop (prod : bool) (ts : list tact) (pos : nat) (ins : list citem) : list fr * bool :=
+Definition cancel_here (c : cancelpt) (pos : nat) : bool :=
+  match c with CTurn k => Nat.eqb k pos | _ => false end.
+Definition cancel_handler (c : cancelpt) : bool := match c with CHandler => true | _ => false end.
+
+(* pipe lockstep loop (server_stream.go): frames written, streamErr <> nil.  The
+   context is looked at only at the top of an iteration: a turn that cancelled it
+   still has its output flushed, then the stream ends CLEANLY (EOS, no exception,
+   streamErr stays nil). *)
+Fixpoint pipe_loop (prod : bool) (ts : list tact) (c : cancelpt) (pos : nat) (ins : list citem) : list fr * bool :=
   match ins with
   | [] => ([], false)
   | ICancel :: _ => ([], false)
   | _ :: rest =>
       match nth pos ts (default_act prod) with
-      | TEmit => let (f, e) := pipe_loop prod ts (S pos) rest in (FData (val pos) :: f, e)
-      | TBig => let (f, e) := pipe_loop prod ts (S pos) rest in (FLog :: FData (val pos) :: f, e)
+      | TEmit => if cancel_here c pos then ([FData (val pos)], false) else
+                 let (f, e) := pipe_loop prod ts c (S pos) rest in (FData (val pos) :: f, e)
+      | TBig => if cancel_here c pos then ([FLog; FData (val pos)], false) else
+                let (f, e) := pipe_loop prod ts c (S pos) rest in (FLog :: FData (val pos) :: f, e)
       | TFinish => if prod then ([], false) else ([FExc], true)
       | TErr | TPanic | TNoEmit | TEmit2 => ([FExc], true)
       | TBadSchema => ([], false)      (* transportErr: the batch cannot be written, streamErr stays nil *)
@@ -106,7 +120,8 @@ Definition pipe_first (k : nat) (cl : call) : fate :=
       else if is_stream kind then
         match c_init cl with
         | OErr | OPanic | ONil => handled true (pipe_resp [[FExc]]) false 0
-        | o => let (f, e) := pipe_loop (is_prod kind) (c_turns cl) 0 (c_inputs cl) in
+        | o => let (f, e) := if cancel_handler (c_cancel cl) then ([], false)    (* cancelled before the first iteration *)
+                             else pipe_loop (is_prod kind) (c_turns cl) (c_cancel cl) 0 (c_inputs cl) in
                handled e (pipe_resp [big_log (init_big o) ++ f]) false 0
         end
       else
@@ -118,13 +133,16 @@ Definition pipe_first (k : nat) (cl : call) : fate :=
 
 (* HTTP produce loop (runProduceLoopInto) from the turns still to play:
    frames, error, cut (batch limit / response cap reached, not finished), position *)
-Fixpoint http_prod (rest : list tact) (pos count : nat) (big : bool) : list fr * bool * bool * nat :=
+(* the batch limit / response cap is judged before the next iteration looks at the
+   context; a cancelled context ends the turn as FINISHED (no token, no error) *)
+Fixpoint http_prod (c : cancelpt) (rest : list tact) (pos count : nat) (big : bool) : list fr * bool * bool * nat :=
   match rest with
   | [] => ([], false, false, pos)
   | a :: r =>
       match a with
       | TEmit => if Nat.leb 2 (S count) || big then ([FData (val pos)], false, true, S pos)
-                 else let '(f, e, c, p) := http_prod r (S pos) (S count) big in (FData (val pos) :: f, e, c, p)
+                 else if cancel_here c pos then ([FData (val pos)], false, false, S pos)
+                 else let '(f, e, ct, p) := http_prod c r (S pos) (S count) big in (FData (val pos) :: f, e, ct, p)
       | TBig => ([FLog; FData (val pos)], false, true, S pos)
       | TFinish => ([], false, false, S pos)
       | TErr | TPanic | TNoEmit | TEmit2 => ([FExc], true, false, S pos)
@@ -133,8 +151,9 @@ Fixpoint http_prod (rest : list tact) (pos count : nat) (big : bool) : list fr *
   end.
 
 (* one HTTP producer turn (init or continuation) incl. the token pack *)
-Definition http_prod_turn (cl : call) (pos : nat) (pre_frames : list fr) (big : bool) : fate :=
-  let '(f, e, cut, p) := http_prod (skipn pos (c_turns cl)) pos 0 big in
+Definition http_prod_turn (cl : call) (pos : nat) (pre_frames : list fr) (big : bool) (cancelled : bool) : fate :=
+  if cancelled then handled false (http_resp 200 false [pre_frames]) false pos else
+  let '(f, e, cut, p) := http_prod (c_cancel cl) (skipn pos (c_turns cl)) pos 0 big in
   if cut then
     if c_nogob cl then handled true (http_resp 200 false [pre_frames ++ f]) false p   (* packCursorToken error *)
     else handled false (http_resp 200 false [pre_frames ++ f ++ [FTok]]) true p
@@ -159,7 +178,7 @@ Definition http_first_gen (legacy : bool) (k : nat) (cl : call) : fate :=
       | KProd =>
           match c_init cl with
           | OErr | OPanic | ONil => handled true http_xerr false 0
-          | o => http_prod_turn cl 0 (big_log (init_big o)) (init_big o)
+          | o => http_prod_turn cl 0 (big_log (init_big o)) (init_big o) (cancel_handler (c_cancel cl))
           end
       | KExch =>
           match c_init cl with
@@ -191,7 +210,8 @@ Definition http_exch_turn (cl : call) (pos : nat) : fate :=
   end.
 
 Definition cont_turn (cl : call) (pos : nat) : fate :=
-  if is_prod (c_kind cl) then http_prod_turn cl pos [] false else http_exch_turn cl pos.
+  (* every continuation request brings a fresh, uncancelled request context *)
+  if is_prod (c_kind cl) then http_prod_turn cl pos [] false false else http_exch_turn cl pos.
 
 (* the continuation requests of an HTTP stream call: (input index, fate) *)
 Fixpoint conts_from (cl : call) (pos j : nat) (ins : list citem) : list (nat * fate) :=
